@@ -144,7 +144,7 @@ def check_case(case, rec=None):
     dataA = None
     for idx, s in enumerate(stmts):
         if idx == endA:
-            dataA = {h: t.data.tobytes() for h, t in run.env.items() if isinstance(t, mg.Tensor)}
+            dataA = {h: (t.data, t.data.tobytes()) for h, t in run.env.items() if isinstance(t, mg.Tensor)}
         try:
             run.exec(idx, s)
         except mg.errors.InvalidBackprop:
@@ -161,7 +161,7 @@ def check_case(case, rec=None):
                 break
             return Mismatch("raised", f"stmt {idx} ({s['k']} {s.get('op', s.get('kind', ''))}): {fmt_exc(e)}")
     if dataA is None:
-        dataA = {h: t.data.tobytes() for h, t in run.env.items() if isinstance(t, mg.Tensor)}
+        dataA = {h: (t.data, t.data.tobytes()) for h, t in run.env.items() if isinstance(t, mg.Tensor)}
     Lt = run.env[L]
     before = {h: (None if t.grad is None else t.grad.tobytes()) for h, t in run.env.items() if isinstance(t, mg.Tensor)}
     try:
@@ -185,7 +185,9 @@ def check_case(case, rec=None):
         e = exp.grads.get(h)
         o = refA.owner[h]
         unchanged = gb == before.get(h)
-        if t.data.tobytes() != dataA.get(h) or h in shapedB or o in writtenB:
+        dA = dataA.get(h)
+        if dA is None or t.data is not dA[0] or t.data.tobytes() != dA[1] or h in shapedB or o in writtenB:
+            # (an in-place update always re-homes the tensor's data in a new ndarray)
             # this tensor now holds post-recording values: the recorded computation cannot reach it
             if not unchanged and g is not None:
                 return Mismatch("grad_from_post_mutation_values",
